@@ -40,6 +40,14 @@ pub fn fresh_shadow(cfg: &Config) -> ModelState {
 
 /// a hardware event through one of the three public entry points
 pub fn gen_hw(rng: &mut Rng, reg: Reg, cur: u16) -> HwOp {
+    if rng.chance(1, 14) {
+        // (bit 15 included: it is never reported and never summarised, whoever sets it)
+        return HwOp {
+            reg,
+            value: *rng.pick(&[0xffffu16, 0x8000, 0x7fff, 0]) ^ if rng.chance(1, 3) { rng.next_u64() as u16 } else { 0 },
+            op: HwKind::Enable,
+        };
+    }
     match rng.below(6) {
         0 => HwOp {
             reg,
@@ -218,6 +226,7 @@ impl Prop for C15 {
             "cls_with_pending_event",
             "set_condition_bits_partial_overlap",
             "clear_condition_bits",
+            "enable_written_by_the_device",
             "register_write_refused_for_surplus_parameter",
         ];
         v.into_iter().map(String::from).collect()
@@ -250,6 +259,9 @@ impl Prop for C15 {
                     let op = gen_hw(&mut rng, reg, shadow.reg_ref(reg).cond);
                     let target = op.target(shadow.reg_ref(reg).cond);
                     shadow.reg(reg).set_condition(target);
+                    if op.op == HwKind::Enable {
+                        shadow.reg(reg).enable = op.value;
+                    }
                     t.steps.push(Step::Hw(op));
                 }
                 _ => {
@@ -357,6 +369,7 @@ impl StepHandler for H15 {
             }
             HwKind::ClearBits => stats.probe("clear_condition_bits"),
             HwKind::Set => {}
+            HwKind::Enable => stats.probe("enable_written_by_the_device"),
         }
         let target = op.target(b.cond);
         let op = &HwOp { reg: op.reg, value: target, op: HwKind::Set };
